@@ -535,6 +535,41 @@ def max_exp_argument(defn, env):
     return worst
 
 
+def near_kink(defn, env):
+    """True when some |.| or angle-wrap node of the definition sits within 1e-3 of its kink at this point
+    (|a| at 0, asin(sin u) / atan(tan u) where cos u = 0, acos(cos u) where sin u = 0): the model is not
+    differentiable there, which is outside every Jacobian-related quantifier.  env includes calibration."""
+    import math
+
+    hit = False
+
+    def walk(a):
+        nonlocal hit
+        if hit or a[0] in ("c", "f", "s"):
+            return
+        if a[0] in ("abs", "sgn", "asinsin", "acoscos", "atantan"):
+            try:
+                u = float(E.ev(a[1], env)[0])
+                m = {"abs": abs(u), "sgn": abs(u), "asinsin": abs(math.cos(u)), "atantan": abs(math.cos(u)),
+                     "acoscos": abs(math.sin(u))}[a[0]]
+                if not m > 2e-3 * (1.0 + abs(u)):
+                    hit = True
+                    return
+            except (OverflowError, ValueError):
+                hit = True
+                return
+        for k in a[1:]:
+            if isinstance(k, list):
+                walk(k)
+
+    for body in defn["model"].values():
+        walk(body)
+    for rd in defn["sensors"].values():
+        for body in rd.values():
+            walk(body)
+    return hit
+
+
 def point(rng, defn, scale=None, avoid_exp_overflow=True):
     """Named input point: dt, every state and control.
 
@@ -554,7 +589,7 @@ def point(rng, defn, scale=None, avoid_exp_overflow=True):
             return env
         full = dict(env)
         full.update(defn.get("calibration_map", {}))
-        if max_exp_argument(defn, full) <= EXP_ARG_LIMIT:
+        if max_exp_argument(defn, full) <= EXP_ARG_LIMIT and not near_kink(defn, full):
             return env
         if attempt % 5 == 4:
             scale = scale / 3.0
@@ -602,7 +637,8 @@ def typed_state(rng, defn, pt, State, names_of, p=0.2):
         trial = dict(pt)
         for s in defn["state"]:
             trial[s] = float(int(round(pt[s]))) if abs(pt[s]) < 1e6 else 0.0
-        if max_exp_argument(defn, dict(trial, **defn["calibration_map"])) > EXP_ARG_LIMIT:
+        full = dict(trial, **defn["calibration_map"])
+        if max_exp_argument(defn, full) > EXP_ARG_LIMIT or near_kink(defn, full):
             return State(**{s: pt[s] for s in defn["state"]}), None
         pt.update(trial)
         arr = np.array([[int(pt[n])] for n in lay], dtype=np.int64).reshape(len(lay), 1)
@@ -625,7 +661,8 @@ def collision_twins(rng, defn, pt):
         for n in chosen:
             pa[n], pb[n] = -1.0, -2.0
         # stay out of the exp-overflow region like every other non-probe point
-        if all(max_exp_argument(defn, dict(q, **defn["calibration_map"])) <= EXP_ARG_LIMIT for q in (pa, pb)):
+        if all(max_exp_argument(defn, dict(q, **defn["calibration_map"])) <= EXP_ARG_LIMIT
+               and not near_kink(defn, dict(q, **defn["calibration_map"])) for q in (pa, pb)):
             return pa, pb
     return dict(pt), dict(pt)
 
